@@ -67,17 +67,23 @@ def _real_chunk(lines):
             if blown >= 3:
                 out.append("SKIP")      # circuit breaker: enough runaway operations seen in this chunk
                 continue
-            signal.alarm(int(os.environ.get("VERIF_OP_TIMEOUT_S", "8")))
+            # a runaway operation (time or memory) becomes an output of that operation; the alarm may fire late (signal
+            # handlers run between bytecodes), also inside a handler below, hence the outer guard
+            res = None
             try:
-                out.append(realops.real_exec(l))
+                try:
+                    try:
+                        signal.alarm(int(os.environ.get("VERIF_OP_TIMEOUT_S", "8")))
+                        res = realops.real_exec(l)
+                    finally:
+                        signal.alarm(0)
+                except MemoryError:
+                    res = "ERR MemoryError"
             except _OpTimeout:
-                out.append("ERR Timeout")
+                res = "ERR Timeout"
+            if res in ("ERR Timeout", "ERR MemoryError"):
                 blown += 1
-            except MemoryError:
-                out.append("ERR MemoryError")
-                blown += 1
-            finally:
-                signal.alarm(0)
+            out.append(res)
     finally:
         signal.signal(signal.SIGALRM, old)
     return out
